@@ -119,8 +119,8 @@ PROPS = {
                "closure.returned", "closure.in_array", "closure.writes_captured", "closure.loop_idiom",
                "closure.siblings", "table.alias", "std.callback", "std.key_function", "native.call1",
                "value.native_function", "call.via_import", "reals", "while", "for_each", "array",
-               "corpus.R-1b", "corpus.R-2a", "corpus.R-2b", "corpus.R-3", "corpus.R-4", "corpus.R-5"],
-        rule="the six witness programs of findings/C01 first, then random WELL-SCOPED programs (RefScope.well_scoped, re-checked per case in Coq) from a kind- and "
+               "corpus.R-1a", "corpus.R-1b", "corpus.R-2a", "corpus.R-2b", "corpus.R-3", "corpus.R-4", "corpus.R-5"],
+        rule="the seven witness programs of findings/C01 (repaired findings R-1..R-5) first, then random WELL-SCOPED programs (RefScope.well_scoped, re-checked per case in Coq) from a kind- and "
              "rank-directed generator: 1-5 functions plus leaf functions of arity 0-3 spread over up to four "
              "(sub)modules with function / module / super imports, 2-24 globals, locals, if / else, while, repeat "
              "and for-each nested to depth 2, early return from loops, function values and closures (nested <= 3, "
@@ -148,18 +148,16 @@ PROPS = {
             "the claim is for well_scoped programs: every operand slot holds a card yielding exactly one value; "
             "new locals (and Array, which needs a hidden local) only directly in function / closure / Repeat / "
             "ForEach bodies; static calls and menu natives get exactly their arity; main does not Return",
-            "globals are compared by name with nil entries dropped on both sides (a never-assigned global below the "
-            "highest assigned slot reads as nil through the host API)",
+            "globals are compared by name as sets, nil entries included (Vm::read_var_by_name answers None for a "
+            "never-assigned global wherever its slot lies, a526e90)",
             "error KINDS are compared (the outermost variant), not payloads or traces (C15)",
             "NaN payloads and signs are not compared (every NaN is printed as one canonical NaN)",
             "table keys are nil, integers, strings and non-zero non-NaN reals; deeper than 6 levels a table is "
             "printed as a cut mark on both sides",
-            "a key function of std.min / max / sorted(_by_key) that changes the key set of the table being "
-            "processed is outside the domain of the semantics (code 10, known_findings.json)",
-            "disagreements are LABELLED, not accepted, when the program or run falls in a known class: code 11 "
-            "RefScope.leaky (static over-approximation of R-2), 12 a Get past the end met a nil key (R-3), 13 "
-            "RefScope.shadowing (R-4), 14 the reference run ended with VarNotFound of a never-assigned global "
-            "(R-5); another defect showing only inside such a program would be reported under that label",
+            "std.min / max / sorted(_by_key) work on the entries (keys and values) the table had when they were "
+            "called, whatever the key function does to the table meanwhile (662697a; was code 10)",
+            "no known classes: the former labels 10-14 (R-1..R-5) were repaired in the crate and are ordinary "
+            "violations (code 2) now; their witnesses run first in every check and must agree with RefSem",
             "the simulation theorem compile_correct against the compiler and VM models is not proved yet; its "
             "statement is in Properties/C01.v",
         ],
@@ -243,8 +241,7 @@ PROPS = {
         check_module="C04Check",
         theorems={t: [] for t in [
             "C04_compile_total", "C04_compile_never_diverges", "C04_super_depth_total", "C04_patch_code_complete",
-            "C04_compile_total_zero_name_refuted", "C04_compile_total_zero_path_refuted",
-            "C04_compile_total_zero_label_refuted",
+            "C04_zero_name_repaired", "C04_zero_path_repaired", "C04_zero_label_repaired",
             "C04_run_total", "C04_step_no_abort_partial", "C04_step_pre_entry_state", "C04_invalid_opcode_aborts",
             "C04_empty_call_stack_aborts", "C04_full_value_stack_is_stackoverflow", "C04_full_value_stack_scalar_nil",
             "C04_full_call_stack_is_callstackoverflow", "C04_full_call_stack_call_function",
@@ -299,9 +296,8 @@ PROPS = {
             "stack-overflow handler (SIGABRT); serde_json / serde_yaml as the loaders",
         ],
         assumptions=[
-            "compile_total holds on C04Proofs.module_in_domain (decidable): estimated output below 2^32 bytes, and no hashed "
-            "name / card index path with FNV-1a hash 0 (debug builds), no function or closure label handle 0 (every build) - "
-            "the excluded modules exist and crash the crate (N-C04-1..3, C04_compile_total_zero_*_refuted)",
+            "compile_total holds on C04Proofs.module_in_domain (decidable): estimated output below 2^32 bytes (the former "
+            "conditions on zero handles went with 3f22e7c: N-C04-1..3 repaired, C04_zero_*_repaired)",
             "PARTIAL run_no_abort: one step, 37 of 47 opcodes, under step_pre; instructions that look keys up in tables, "
             "natives and the upvalue instructions are not covered (C04VmProofs.v header lists every abort site of Vm.v)",
             "native stack exhaustion and aborts are runtime behaviour: observed per child process, not derivable from the "
@@ -484,7 +480,7 @@ PROPS = {
         theorems={t: [] for t in [
             "C13_every_history", "C13_get", "C13_insert", "C13_entry", "C13_remove",
             "C13_other_handles_after_remove", "C13_iter_len", "C13_mask_is_mod", "C13_conservation",
-            "C13_step_conserves"]},
+            "C13_step_conserves", "C13_constructed_handles_nonzero"]},
         n_quick=300, n_thorough=4000,
         gates=["ht.grew>1", "ht.removed_present", "ht.alloc_failed", "ht.entry_new>16", "ht.index_absent",
                "ht.cap0_not_pow2", "ht.keys=colliding", "ht.keys=small", "ht.keys=random"],
